@@ -293,7 +293,7 @@ def Mean.compute (cfg : MeanCfg) (s : MeanSt) : Except Err (List (Item Rat)) :=
     if cfg.passOnEmpty then .ok [] else .error .zeroDivision
   else if cfg.useSeq then
     match [Sum.compute s.seq] with
-    | [] => .ok []      -- `assert sums` (unreachable: `Sum.compute` yields one value)
+    | [] => .error .assertionError      -- `assert sums` (unreachable: `Sum.compute` yields one value)
     | s0 :: rest =>
       let mean : Rat := (s0.data : Rat) / (s.count : Rat)
       .ok (withCtx mean (s.ctx.update s0.context)
@@ -846,5 +846,54 @@ def histogramNdM (cfg : HistNdCfg) (s0 : HistNdSt) :
   fill := HistogramNd.fill
   compute s := (s, .ok [HistogramNd.compute s])
   reset := HistogramNd.reset cfg
+
+/-! ## Review follow-up: Count.fill_into, Graph constructed from points and context, sum sequences whose values carry
+contexts, Vectorize over a list of different components -/
+
+/-- `Count.fill_into(element, value)`: `self.count += 1`; the value's context gets `{name: count}`; the value is
+handed on (`element.fill((data, context))`).  `_cur_context` is not touched. -/
+def Count.fillInto {δ : Type} (cfg : CountCfg) (s : CountSt) (v : Item δ) : CountSt × Item δ :=
+  let c := s.count + 1
+  (⟨c, s.ctx⟩, ⟨v.data, some (v.context.set cfg.name (some c))⟩)
+
+/-- `Graph(points, context, scale, sort)`: `__init__` stores its arguments and calls `_update()` (a scale in the
+given context is adopted or contradicts `scale`; the points are sorted) -/
+def Graph.new (cfg : GraphCfg) (pts : List Pt) (ctx : Ctx) : Except Err GraphSt :=
+  let r := Graph.compute cfg ⟨pts, cfg.scale0, ctx⟩
+  match r.2 with
+  | .error e => .error e
+  | .ok _ => .ok r.1
+
+/-- the element built by a successful `Graph(points, context, …)` call whose result is `s0` -/
+def graphFromM (cfg : GraphCfg) (s0 : GraphSt) : Machine GraphSt (Item Pt) GraphOut :=
+  { graphM cfg with init := s0 }
+
+/-- `FillComputeSeq(StoreFilled(False), lambda x: (x, {"v<x>": 1}))` as a sum sequence: it yields every stored
+(bare) value as a pair whose context has a key made from the value -/
+def storeTagM : Machine (List (Item Int)) (Item Int) (Item Int) where
+  init := []
+  fill s v := (s ++ [v], none)
+  compute s := (s, .ok (s.map (fun v => ⟨v.data, some [("v" ++ toString v.data, some 1)]⟩)))
+  reset _ := []
+
+/-- two kinds of components side by side: a state is a state of one of them -/
+def orM {σ₁ σ₂ ι ο₁ ο₂ : Type} (m₁ : Machine σ₁ ι ο₁) (m₂ : Machine σ₂ ι ο₂) : Machine (σ₁ ⊕ σ₂) ι (ο₁ ⊕ ο₂) where
+  init := .inl m₁.init
+  fill s v := match s with
+    | .inl s => let r := m₁.fill s v; (.inl r.1, r.2)
+    | .inr s => let r := m₂.fill s v; (.inr r.1, r.2)
+  compute s := match s with
+    | .inl s => let r := m₁.compute s
+                (.inl r.1, match r.2 with | .error e => .error e | .ok ys => .ok (ys.map Sum.inl))
+    | .inr s => let r := m₂.compute s
+                (.inr r.1, match r.2 with | .error e => .error e | .ok ys => .ok (ys.map Sum.inr))
+  reset s := match s with
+    | .inl s => .inl (m₁.reset s)
+    | .inr s => .inr (m₂.reset s)
+
+/-- `Vectorize([seq₀, seq₁, …])`: a list of (possibly different) components, given by their initial states -/
+def vectorizeLM {σ δ ο : Type} (m : Machine σ (Item δ) ο) (inits : List σ) :
+    Machine (VecSt σ) (Item (List δ)) (Item (List (Option ο))) :=
+  { vectorizeM m 0 with init := ⟨inits, []⟩ }
 
 end Lena.C09
